@@ -18,7 +18,7 @@ RULE = ("round trip xyz_str -> from_xyz for n in {1,2,3,7,40} atoms, all 118 ele
         "repository's XYZ files and the C07 templates under rigid motions and atom permutations.  distinct = cases")
 ASSUMPTIONS = ["comment lines are single lines", "the covalent radii table is data of the library and is read, not re-derived",
                "rigid-motion part restricted to geometries whose distances are >= 2% away from every cut-off"]
-BUDGET = {"quick": 120, "thorough": 900}
+BUDGET = {"quick": 600, "thorough": 900}
 
 VALS = [0.0, -0.0, 1e-9, -1e-9, 4.9e-9, -4.9e-9, 5.1e-9, -5.1e-9, 0.123456789, -0.123456789, 1.0, -1.0, 12345.678901234,
         -12345.678901234, 999999.99999999, -999999.99999999, 1e6, -1e6, 1.00000000499, 2.5e-8, 123.000000005]
